@@ -765,6 +765,34 @@ func mapStatesScenario(b *evid.Batch) (viol *evid.Violation) {
 		if viol != nil {
 			break
 		}
+		// (d) a read rejected inside the map after one entry had been decoded, then at once another message with
+		// other keys into a fresh receiver; 300 times in a row (whatever the library keeps of a rejected read
+		// must not reach the next one)
+		other := append([]byte{0x0d, 0, k.id, 0x0b, 0x0b, 0, 0, 0, 1}, append(str("zz"), str("yy")...)...)
+		other = append(other, 0)
+		for rep := 0; rep < 300 && viol == nil; rep++ {
+			x := k.mk()
+			cut := 9 + 12 + 3 + rep%9 // inside the second entry
+			if _, err := x.FastRead(two[:cut:cut]); err == nil {
+				viol = evid.Failf("%s.FastRead accepted a message cut to %d of %d bytes", k.name, cut, len(two))
+				break
+			}
+			y := k.mk()
+			if _, err := y.FastRead(other); err != nil {
+				viol = evid.Failf("%s.FastRead of a one-entry message: %v", k.name, err)
+				break
+			}
+			if m := k.extra(y); len(m) != 1 || m["zz"] != "yy" {
+				viol = evid.Failf("%s: right after a read that was rejected inside the Extra map (one entry already decoded), a message with the single entry zz=yy read into a fresh receiver gives a map of %d entries: %v", k.name, len(m), m)
+				break
+			}
+		}
+		if viol != nil {
+			break
+		}
+		b.Evals++
+		b.Distinct++
+		b.Nontrivial++
 		// (b) and (c)
 		for _, order := range [][2][]byte{{empty, two}, {two, empty}, {empty, empty}, {two, two}} {
 			x := k.mk()
@@ -825,7 +853,7 @@ func mapStatesScenario(b *evid.Batch) (viol *evid.Violation) {
 }
 
 func TestC11_MapStates(t *testing.T) {
-	rec := evid.New("C11", "c11_map_states", "enumeration for Base and BaseResp: (a) a read that fails at every cut inside the 6-byte header of the Extra map (or anywhere else in a message that holds only that field), followed by a complete message WITHOUT the field into the same receiver: the map stays absent (nil) unless an earlier read had got as far as the map; (b) a read that yields an empty map, the caller keeps that map, the same receiver then reads a message with two entries: the kept map stays empty and is not the receiver's new map; (c) the same with a filled map kept and an empty one read; every (type, scenario, cut) is one evaluation")
+	rec := evid.New("C11", "c11_map_states", "enumeration for Base and BaseResp: (a) a read that fails at every cut inside the 6-byte header of the Extra map (or anywhere else in a message that holds only that field), followed by a complete message WITHOUT the field into the same receiver: the map stays absent (nil) unless an earlier read had got as far as the map; (b) a read that yields an empty map, the caller keeps that map, the same receiver then reads a message with two entries: the kept map stays empty and is not the receiver's new map; (c) the same with a filled map kept and an empty one read; (d) 300 times: a read rejected inside the map after one entry was decoded, then another message into a fresh receiver; every (type, scenario, cut) is one evaluation")
 	defer rec.Flush()
 	b := evid.NewBatch()
 	viol := mapStatesScenario(b)
